@@ -10,8 +10,10 @@ package main
 //   "apply" : arbitrary (also out-of-range) op lists replayed by ApplySingle vs the model's replay
 //   "big"   : real constants (64 KiB blocks, 4 MiB data ops), run-length encoded inputs, exact op list
 // Oracle-only lines: "enum/..." summaries of exhaustively enumerated blocks (every enumerated case
-// goes through the oracle; a deterministic sample of them is also emitted in group "ops"), and
-// the high-entropy real-constant cases.
+// goes through the oracle; a deterministic sample of them is also emitted in group "ops"), the
+// high-entropy real-constant cases (flavour "rand") and the low-entropy real-constant cases
+// (flavour "low": runs of one byte value across the MaxDataOp cut / the buffer wrap / the trailing
+// data, constant, periodic and small-alphabet sources; both tiers).
 //
 // Oracle (independent of the model), on the operations the implementation emitted:
 //   own replay == source and ApplySingle replay == source; every block range names an existing
@@ -722,20 +724,48 @@ func c11ApplyGroup(c *Ctx, r *lib.Rng, n int) error {
 const c11BS = 65536
 
 type c11Seg struct {
-	Kind string `json:"kind"` // "fresh" | "match" | "oldtail"
-	N    int    `json:"n"`    // fresh: bytes; match: number of blocks
+	Kind string `json:"kind"` // "fresh" | "match" | "oldtail"; flavour "low" also: "noise" | "const" | "sticky" | "period"
+	N    int    `json:"n"`    // fresh, noise, const, sticky, period: bytes; match: number of blocks
 	File int    `json:"file,omitempty"`
 	At   int    `json:"at,omitempty"` // first block
+	// flavour "low" only
+	Val    int `json:"val,omitempty"`    // const: the byte value; sticky, period: smallest letter
+	Alpha  int `json:"alpha,omitempty"`  // sticky, period: number of letters
+	Stick  int `json:"stick,omitempty"`  // sticky: the previous byte is repeated with probability Stick/8
+	Period int `json:"period,omitempty"` // period: length of the repeated pattern
+}
+
+// c11Aim asks for a run of one byte value laid over the built source at a position the
+// implementation itself reveals on a probe run of the source without that run (see c11AimOverlay).
+type c11Aim struct {
+	Anchor string // "mark" | "wrap" | "tail" | "start"
+	Which  int    // which one of the anchors of that kind (modulo their number)
+	Rel    int    // first byte of the run relative to the anchor
+	N      int    // length of the run (< 0: up to the end of the source)
+	Val    int
+}
+
+// c11Overlay is the run actually written: bytes [At, At+N) of the source are Val.
+type c11Overlay struct {
+	Anchor   string `json:"anchor"`   // what the run was aimed at
+	AnchorAt int    `json:"anchorAt"` // source offset of that anchor
+	At       int    `json:"at"`
+	N        int    `json:"n"`
+	Val      int    `json:"val"`
 }
 
 type c11Big struct {
 	BS      int // block size (0: 64 KiB)
 	Name    string
-	Flavour string // "rand" (high entropy, oracle only) | "rle" (structured, also evaluated by the model)
+	Flavour string // "rand" (high entropy, oracle only) | "rle" (structured, also evaluated by the model) | "low" (low entropy, oracle only)
 	OldBlk  []int  // per old file: number of full blocks
 	OldTail []int  // per old file: short tail length
 	Segs    []c11Seg
 	Pref    int64
+	// flavour "low" only
+	OldConst [][3]int // {file, block, value}: that block of that old file is filled with the value
+	Aim      *c11Aim
+	Overlay  *c11Overlay // set by c11AimOverlay
 }
 
 // structured block: first byte a, fill f, last byte z (all different from each other), so that
@@ -770,6 +800,9 @@ func c11FreshStruct(r *lib.Rng, n int) []byte {
 }
 
 func (bc *c11Big) build(r *lib.Rng) (olds [][]byte, src []byte) {
+	if bc.Flavour == "low" {
+		return bc.buildLow(r)
+	}
 	if bc.BS != 0 {
 		return bc.buildSmallBS(r)
 	}
@@ -862,6 +895,294 @@ func (bc *c11Big) buildSmallBS(r *lib.Rng) (olds [][]byte, src []byte) {
 		}
 	}
 	return
+}
+
+// ---------- (c') low-entropy sources at the real constants (flavour "low", oracle only) ----------
+//
+// The weak hash of the window does not change from one byte to the next inside a run of one byte
+// value longer than a block (and, at small block sizes, in many windows of a small alphabet): the
+// differ then takes its "same hash as one byte back" path.  High-entropy sources never take it, and
+// the small enumerated cases never combine it with the MaxDataOp flush, the buffer wrap and the
+// split of the trailing data.  These cases do: runs laid across the positions where the
+// implementation has to cut the pending data, constant / periodic / small-alphabet sources longer
+// than the buffer, with and without a library, with and without the run being an old block.
+
+func (bc *c11Big) blockSize() int {
+	if bc.BS != 0 {
+		return bc.BS
+	}
+	return c11BS
+}
+
+// n random letters lo..lo+cnt-1
+func c11Letters(r *lib.Rng, n, lo, cnt int) []byte {
+	b := r.Bytes(n)
+	for i := range b {
+		b[i] = byte(lo + int(b[i])%cnt)
+	}
+	return b
+}
+
+// c11NoiseLetters: the source's noise uses the letters 0..199, the noise blocks of the old files
+// the letters 200..255, so that at no block size a window of noise equals an old block by accident
+// (the positions where the pending data reaches MaxDataOp are then the ones the probe run showed).
+const c11NoiseLetters = 200
+
+func (bc *c11Big) buildLow(r *lib.Rng) (olds [][]byte, src []byte) {
+	bs := bc.blockSize()
+	for k := range bc.OldBlk {
+		olds = append(olds, c11Letters(r, bc.OldBlk[k]*bs+bc.OldTail[k], c11NoiseLetters, 256-c11NoiseLetters))
+	}
+	for _, cb := range bc.OldConst {
+		f := olds[cb[0]]
+		for i := cb[1] * bs; i < (cb[1]+1)*bs && i < len(f); i++ {
+			f[i] = byte(cb[2])
+		}
+	}
+	type run struct{ from, to, val int }
+	var runs []run
+	for _, s := range bc.Segs {
+		var piece []byte
+		switch s.Kind {
+		case "noise", "fresh":
+			piece = c11Letters(r, s.N, 0, c11NoiseLetters)
+		case "const":
+			piece = bytes.Repeat([]byte{byte(s.Val)}, s.N)
+			runs = append(runs, run{len(src), len(src) + s.N, s.Val})
+		case "sticky": // small alphabet, the previous letter is repeated with probability Stick/8
+			piece = make([]byte, s.N)
+			raw := r.Bytes(s.N)
+			prev := byte(s.Val + r.Intn(s.Alpha))
+			for i := range piece {
+				if int(raw[i]&7) >= s.Stick {
+					prev = byte(s.Val + int(raw[i]>>3)%s.Alpha)
+				}
+				piece[i] = prev
+			}
+		case "period":
+			pat := c11Letters(r, s.Period, s.Val, s.Alpha)
+			piece = make([]byte, s.N)
+			for i := range piece {
+				piece[i] = pat[i%s.Period]
+			}
+		case "match":
+			piece = olds[s.File][s.At*bs : (s.At+s.N)*bs]
+		case "oldtail":
+			piece = olds[s.File][bc.OldBlk[s.File]*bs:]
+		}
+		src = append(src, piece...)
+	}
+	for _, u := range runs { // a run is exactly as long as stated
+		c11IsolateRun(src, u.from, u.to, u.val)
+	}
+	return
+}
+
+// the noise letters next to the run [from, to) of val are made different from val
+func c11IsolateRun(src []byte, from, to, val int) {
+	other := byte((val + 1) % c11NoiseLetters)
+	if from > 0 && from <= len(src) && int(src[from-1]) == val && val < c11NoiseLetters {
+		src[from-1] = other
+	}
+	if to >= 0 && to < len(src) && int(src[to]) == val && val < c11NoiseLetters {
+		src[to] = other
+	}
+}
+
+// c11AimOverlay lays the run bc.Aim over src.  The anchors are read off a probe run of the
+// implementation on the source without the run: "mark" = end of a data operation of MaxDataOp (or
+// more) bytes, "wrap" = end of a shorter data operation that is directly followed by another data
+// operation (the flush before the buffer is wrapped), "tail" = start of the last operation when it
+// is a data operation, "start" = offset 0.  A missing kind falls back to the next one.  The probe
+// only aims the generator: whatever it returns, the case that is then run and judged is an
+// ordinary input.  Returns false when the probe itself did not come back (the caller drops ctx).
+func c11AimOverlay(ctx *wsync.Context, bc *c11Big, olds [][]byte, src []byte) bool {
+	a := bc.Aim
+	bs := bc.blockSize()
+	anch := map[string][]int{"start": {0}}
+	alive := true
+	if a.Anchor != "start" {
+		var ops []c11Op
+		cls, _ := lib.WithDeadline(120*time.Second, func() error {
+			sig, err := c11SignAll(ctx, olds)
+			if err != nil {
+				return err
+			}
+			var dc, dm string
+			ops, dc, dm = c11Diff(ctx, wsync.NewBlockLibrary(sig), src, bc.Pref)
+			if dc != "ok" {
+				return fmt.Errorf("%s: %s", dc, dm)
+			}
+			return nil
+		})
+		alive = cls != "hang"
+		if cls == "ok" {
+			off := 0
+			for k, o := range ops {
+				if o.Range {
+					if o.File < 0 || o.File >= int64(len(olds)) || o.Index < 0 || o.Span < 0 || o.Index+o.Span > c11NumBlocks(len(olds[o.File]), bs)+1 {
+						break
+					}
+					lo, hi := int(o.Index)*bs, int(o.Index+o.Span)*bs
+					if hi > len(olds[o.File]) {
+						hi = len(olds[o.File])
+					}
+					if hi > lo {
+						off += hi - lo
+					}
+					continue
+				}
+				n := len(o.Data)
+				switch {
+				case n >= wsync.MaxDataOp && off+n < len(src):
+					anch["mark"] = append(anch["mark"], off+n)
+				case n > 0 && k+1 < len(ops) && !ops[k+1].Range:
+					anch["wrap"] = append(anch["wrap"], off+n)
+				}
+				if k == len(ops)-1 && k > 0 {
+					anch["tail"] = append(anch["tail"], off)
+				}
+				off += n
+			}
+		}
+	}
+	kind := a.Anchor
+	for _, k := range []string{a.Anchor, "mark", "wrap", "tail", "start"} {
+		if len(anch[k]) > 0 {
+			kind = k
+			break
+		}
+	}
+	at0 := anch[kind][a.Which%len(anch[kind])]
+	from, to := at0+a.Rel, at0+a.Rel+a.N
+	if a.N < 0 {
+		to = len(src)
+	}
+	if from < 0 {
+		from = 0
+	}
+	if to > len(src) {
+		to = len(src)
+	}
+	if from < to {
+		for i := from; i < to; i++ {
+			src[i] = byte(a.Val)
+		}
+		c11IsolateRun(src, from, to, a.Val)
+		bc.Overlay = &c11Overlay{Anchor: kind, AnchorAt: at0, At: from, N: to - from, Val: a.Val}
+	}
+	return alive
+}
+
+func c11LowCases(r *lib.Rng, tier string) []*c11Big {
+	M := wsync.MaxDataOp
+	noise := func(n int) c11Seg { return c11Seg{Kind: "noise", N: n} }
+	// corpus: fresh data whose 4 MiB mark lies inside a run of one byte value (the pending data
+	// was not cut there by a faulty variant: seeded/C11-2), and a constant source that fills the buffer
+	out := []*c11Big{
+		{Name: "corpus/run-across-4MiB-mark", Flavour: "low", Pref: -1,
+			Segs: []c11Seg{noise(M - 1), {Kind: "const", N: c11BS + 1, Val: 170}, noise(c11BS + 3)}},
+		{BS: 1024, Name: "corpus/constant-source", Flavour: "low", Pref: -1,
+			Segs: []c11Seg{{Kind: "const", N: M + 3*1024 + 5, Val: 1}}},
+	}
+	nAim, nFree, nLong := 8, 4, 2
+	if tier != "quick" {
+		nAim, nFree, nLong = 180, 60, 1<<30
+	}
+	bss := []int{1, 2, 3, 4, 7, 16, 255, 1024, 4096, c11BS}
+	pickBS := func() int {
+		if r.Chance(1, 3) {
+			return c11BS
+		}
+		return bss[r.Intn(len(bss))]
+	}
+	// source length: one buffer fill and a bit (one MaxDataOp cut, one wrap), or two of them
+	length := func(bs int) int {
+		if nLong > 0 && r.Chance(1, 4) {
+			nLong--
+			return 2*(M+2*bs) + r.Range(0, 3*bs)
+		}
+		return M + 4*bs + r.Range(0, 2*bs+2)
+	}
+	for i := 0; i < nAim; i++ {
+		bs := pickBS()
+		bc := &c11Big{BS: bs, Flavour: "low", Pref: -1}
+		val := r.Intn(c11NoiseLetters)
+		n := length(bs)
+		rels := []int{-bs - 1, -2, -1, -1, 0, 1}
+		lens := []int{bs - 1, bs, bs + 1, bs + 2, bs + 2, 2*bs + 1, 3*bs + 7, -1}
+		aim := &c11Aim{Anchor: []string{"mark", "mark", "mark", "mark", "wrap", "wrap", "tail", "start"}[r.Intn(8)],
+			Which: r.Intn(4), Rel: rels[r.Intn(len(rels))], N: lens[r.Intn(len(lens))], Val: val}
+		if aim.N == 0 {
+			aim.N = 1
+		}
+		libKind := "nolib"
+		switch r.Intn(6) {
+		case 0, 1:
+		case 2: // a library that matches nothing
+			libKind = "otherlib"
+			bc.OldBlk, bc.OldTail, bc.Pref = []int{r.Range(1, 4)}, []int{r.Intn(bs)}, int64(r.Range(-1, 0))
+		case 3, 4: // old blocks lead the source: the pending data does not start at offset 0
+			libKind = "lead"
+			bc.OldBlk, bc.OldTail, bc.Pref = []int{r.Range(1, 4)}, []int{r.Intn(bs)}, int64(r.Range(-1, 0))
+			at := r.Intn(bc.OldBlk[0])
+			bc.Segs = append(bc.Segs, noise([]int{0, 0, 1, bs - 1, bs, bs + 1}[r.Intn(6)]),
+				c11Seg{Kind: "match", N: r.Range(1, bc.OldBlk[0]-at), File: 0, At: at})
+		default: // one old block is the run's letter: the run itself is found in the library
+			libKind = "runlib"
+			bc.OldBlk, bc.OldTail, bc.Pref = []int{r.Range(1, 3)}, []int{r.Intn(bs)}, int64(r.Range(-1, 0))
+			bc.OldConst = [][3]int{{0, r.Intn(bc.OldBlk[0]), val}}
+			if aim.N < 0 || aim.N > 3*bs+7 {
+				aim.N = r.Range(bs, 3*bs+7) // (no run of a million matches of a 1-byte block)
+			}
+		}
+		bc.Segs = append(bc.Segs, noise(n))
+		bc.Aim = aim
+		bc.Name = fmt.Sprintf("run@%s/bs%d/%s/%d", aim.Anchor, bs, libKind, i)
+		out = append(out, bc)
+	}
+	for i := 0; i < nFree; i++ {
+		bs := pickBS()
+		bc := &c11Big{BS: bs, Flavour: "low", Pref: -1}
+		if r.Chance(1, 3) { // a library that matches nothing (letters 200..255)
+			bc.OldBlk, bc.OldTail, bc.Pref = []int{r.Range(1, 3)}, []int{r.Intn(bs)}, int64(r.Range(-1, 0))
+		}
+		kind := i % 3
+		if tier != "quick" {
+			kind = r.Intn(3)
+		}
+		switch kind {
+		case 0: // small alphabet with repeats, small blocks: the hash stands still every few bytes
+			bs = []int{1, 1, 2, 2, 3, 4, 7, 16}[r.Intn(8)]
+			bc.BS = bs
+			if bc.OldBlk != nil {
+				bc.OldTail = []int{r.Intn(bs)}
+			}
+			s := c11Seg{Kind: "sticky", N: length(bs), Val: r.Intn(150), Alpha: r.Range(2, 4), Stick: []int{4, 6, 7}[r.Intn(3)]}
+			bc.Segs = []c11Seg{s}
+			bc.Name = fmt.Sprintf("sticky/bs%d/a%d/%d", bs, s.Alpha, i)
+		case 1: // one byte value from start to end, or noise around a long run
+			n := length(bs)
+			v := r.Intn(c11NoiseLetters)
+			switch r.Intn(3) {
+			case 0:
+				bc.Segs = []c11Seg{{Kind: "const", N: n, Val: v}}
+			case 1:
+				k := r.Range(0, 2*bs+2)
+				bc.Segs = []c11Seg{noise(k), {Kind: "const", N: n - k, Val: v}}
+			default:
+				k := r.Range(0, 2*bs+2)
+				bc.Segs = []c11Seg{{Kind: "const", N: n - k, Val: v}, noise(k)}
+			}
+			bc.Name = fmt.Sprintf("constant/bs%d/%d", bs, i)
+		default: // a short pattern repeated (period dividing the block size or not)
+			per := []int{2, 3, bs, bs + 1, bs/2 + 1, 2 * bs}[r.Intn(6)]
+			bc.Segs = []c11Seg{{Kind: "period", N: length(bs), Val: r.Intn(150), Alpha: r.Range(2, 4), Period: per}}
+			bc.Name = fmt.Sprintf("periodic/bs%d/p%d/%d", bs, per, i)
+		}
+		out = append(out, bc)
+	}
+	return out
 }
 
 const c11MiB = 1 << 20
@@ -1034,6 +1355,12 @@ func c11RunBig(c *Ctx, r *lib.Rng) error {
 			return err
 		}
 	}
+	// (drawn after the cases above so that their random streams are what they were)
+	for _, bc := range c11LowCases(r.Fork(), c.Tier) {
+		if err := c11RunOneBig(c, ctxs, bc, r.Fork()); err != nil {
+			return err
+		}
+	}
 	return nil
 }
 
@@ -1047,6 +1374,10 @@ func c11RunOneBig(c *Ctx, ctxs map[int]*wsync.Context, bc *c11Big, cr *lib.Rng) 
 		ctxs[bs] = wsync.NewContext(bs)
 	}
 	ctx := ctxs[bs]
+	if bc.Aim != nil && !c11AimOverlay(ctx, bc, olds, src) {
+		ctx = wsync.NewContext(bs) // the probe run never came back and may still use the old one
+		ctxs[bs] = ctx
+	}
 	in := &c11Input{bs: bs, olds: olds, src: src, pref: bc.Pref}
 	var ops []c11Op
 	oracle := ""
@@ -1090,9 +1421,16 @@ func c11RunOneBig(c *Ctx, ctxs map[int]*wsync.Context, bc *c11Big, cr *lib.Rng) 
 		}
 		coq = fmt.Sprintf("($ID%%N, %d%%N, %s, %s, %s, ([%s]%%N))", bs, c11RleL(olds), lib.ToRle(src).Coq(), c11PrefCoq(bc.Pref), strings.Join(ys, "; "))
 	}
+	input := map[string]interface{}{"name": bc.Name, "bs": bs, "flavour": bc.Flavour, "oldBlocks": bc.OldBlk, "oldTails": bc.OldTail,
+		"segments": bc.Segs, "srcLen": len(src), "pref": bc.Pref, "srcDigest": lib.Digest(src)}
+	if bc.OldConst != nil {
+		input["oldConstBlocks"] = bc.OldConst // {file, block, byte value}
+	}
+	if bc.Overlay != nil {
+		input["overlay"] = bc.Overlay // bytes [at, at+n) of the source built from the segments are val
+	}
 	c.Out.Emit(&lib.Case{Group: group, Coq: coq, Class: class, Nontrivial: len(ops) >= 2,
-		Input: map[string]interface{}{"name": bc.Name, "bs": bs, "flavour": bc.Flavour, "oldBlocks": bc.OldBlk, "oldTails": bc.OldTail,
-			"segments": bc.Segs, "srcLen": len(src), "pref": bc.Pref, "srcDigest": lib.Digest(src)},
+		Input:  input,
 		Obs:    map[string]interface{}{"ops": c11OpsJ(ops, false), "dataSizes": sizes},
 		Oracle: oracle, Finding: finding})
 	return nil
@@ -1104,6 +1442,16 @@ func runC11(c *Ctx) error {
 		r := c.Rng.Fork()
 		for _, bc := range c11RleCases(r.Fork(), c.Tier) {
 			if err := c11RunOneBig(c, map[int]*wsync.Context{}, bc, r.Fork()); err != nil {
+				return err
+			}
+		}
+		return nil
+	}
+	if c.Replay == "low" { // developer switch: only the low-entropy real-constant cases
+		r := c.Rng.Fork()
+		ctxs := map[int]*wsync.Context{}
+		for _, bc := range c11LowCases(r.Fork(), c.Tier) {
+			if err := c11RunOneBig(c, ctxs, bc, r.Fork()); err != nil {
 				return err
 			}
 		}
